@@ -3,6 +3,7 @@ import FeatModel.Model.Assembly
 import FeatModel.Model.Burgers
 import FeatModel.Model.Blocked
 import FeatModel.Model.LocalFE
+import FeatModel.Model.TraceOrient
 /-! line-protocol driver for the C16 models (CSR/banded/vector scatter and gather, symbolic assembly, cell-loop assembly) -/
 open FeatModel FeatModel.Proto FeatModel.Adj FeatModel.Asm
 
@@ -170,6 +171,18 @@ def handle : P String := do
           | none => "UNINIT"
           | some d => showMatrix p d
         pure (" ".intercalate (s!"H {reqs.length}" :: outs))
+  | "trpt" =>
+    -- orientation code and mapped facet point of the 3-D trace assembler
+    let shape ← tok; let lf ← nat; let p ← nat; let s0 ← rat; let s1 ← rat
+    let k := if shape == "tetra" then FE.Kind.S else FE.Kind.H
+    let sy := TraceOrient.syms k
+    let r := FE.storedRow k 3 2 lf (sy.getD (p % sy.length) [])
+    match TraceOrient.orientCode k r (TraceOrient.canonFace k lf) with
+    | none => pure "TP -1"
+    | some c =>
+      match TraceOrient.facetPoint k lf c [s0, s1] with
+      | none => pure "BAD-OP no trafo"
+      | some x => pure s!"TP {c} {showRats x}"
   | "flocal" =>
     -- local matrices / vectors of affine cells from C15's basis polynomials, the rational rule and the cell geometry
     let shape ← tok
